@@ -61,6 +61,12 @@ class HashesSuite(Suite):
                 seq.append(("default", k, 3))
                 seq.append(("utf8", k.decode("latin-1")))
         seqs.append(seq)
+        # digest padding boundaries: 55, 56, 63, 64, 119, 120 bytes
+        pad = []
+        for ln in (0, 1, 54, 55, 56, 57, 63, 64, 65, 118, 119, 120, 121, 128, 200):
+            k = bytes((7 * i + ln) % 256 for i in range(ln))
+            pad += [("digest-md5", k, 1), ("digest-sha256", k, 1), ("md5", k, 3), ("sha256", k, 3)]
+        seqs.append(pad)
         n_rand = 400 if tier == "quick" else 8000
         for _ in range(n_rand // 20):
             seq = []
@@ -76,8 +82,10 @@ class HashesSuite(Suite):
                     seq.append(("default", key, depth))
                 elif r < 0.78:
                     seq.append(("dint", rng.choice(["fnvseed", "sumlen", "small"]), key, depth))
-                elif r < 0.95:
+                elif r < 0.88:
                     seq.append(("dbytes", rng.choice(["fnvle", "chain"]), key, depth))
+                elif r < 0.95:
+                    seq.append((rng.choice(["md5", "sha256", "digest-md5", "digest-sha256"]), key, min(depth, 6)))
                 else:
                     if isinstance(key, str):
                         seq.append(("utf8", key))
@@ -107,6 +115,16 @@ class HashesSuite(Suite):
                 fn = H.hash_with_depth_bytes(inner_bytes(op[1]))
                 res = call(fn, op[2], op[3])
                 out.append((f"h.dbytes {op[1]} {key_token(op[2])} {op[3]}", {"ret": nats(res[1]) if res[0] == "ok" else res[1]}))
+            elif kind in ("md5", "sha256"):
+                fn = H.default_md5 if kind == "md5" else H.default_sha256
+                res = call(fn, op[1], op[2])
+                out.append((f"h.{kind} {key_token(op[1])} {op[2]}", {"ret": nats(res[1]) if res[0] == "ok" else res[1]}))
+            elif kind in ("digest-md5", "digest-sha256"):
+                import hashlib
+
+                data = op[1].encode("utf-8") if isinstance(op[1], str) else op[1]
+                alg = kind.split("-")[1]
+                out.append((f"h.digest {alg} {key_token(op[1])}", {"ret": getattr(hashlib, alg)(data).hexdigest()}))
             elif kind == "utf8":
                 out.append((f"h.utf8 {key_token(op[1])}", {"ret": nats(op[1].encode("utf-8"))}))
         return out
